@@ -58,6 +58,22 @@ def SpawnersWaited (p : Pool) : Prop :=
   ∀ (g : Nat) (G : Gather), p.gathers[g]? = some G → G.retExc = true → G.outer.isSome = true →
     ∀ m, Child.spawner m ∈ G.children → ∃ r : Req, p.reqs[m]? = some r ∧ r.outcome.isSome = true
 
+/-- `gacStage1` up to and including the start of its first gather (the state in which that gather may already be
+complete) -/
+def gacStage1Pre (p : Pool) (a : Nat) (re : Bool) : Pool × Nat :=
+  let p : Pool := { p with locked := true }
+  let runningMetas := indicesWhere p.reqs fun r => r.inRunning
+  let children := p.metaCancelled.map Child.spawner ++ runningMetas.map Child.spawner
+  let amb := !re && (failKindsExc p (children.take p.metaCancelled.length)).length > 1
+  let p : Pool := { p with ambiguous := p.ambiguous || amb }
+  p.gatherStart children true a 0
+
+theorem gacStage1_eq (p : Pool) (a : Nat) (re : Bool) :
+    p.gacStage1 a re =
+      match (p.gacStage1Pre a re).1.gatherOuter (p.gacStage1Pre a re).2 with
+      | some _ => (p.gacStage1Pre a re).1.gacAfter1 a re (p.gacStage1Pre a re).2
+      | none => (p.gacStage1Pre a re).1.modApi a fun x => { x with frame := .gather1 (p.gacStage1Pre a re).2 } := rfl
+
 structure SealOK (E : Nat → Prop) (p : Pool) : Prop where
   fr : ∀ (m : Nat) (r : Req), p.reqs[m]? = some r → ¬ E m → r.outcome = none → r.inRunning = true ∨ DoomedAt p m r
   lk : ∀ (a : Nat) (A : Api), p.apis[a]? = some A → A.gacPending = true → p.locked = true
